@@ -168,6 +168,84 @@ Theorem C03_hist_loo_is_data_minus_row : forall B obs k b,
 Proof. exact hist_loo_is_data_minus_row. Qed.
 Print Assumptions C03_hist_loo_is_data_minus_row.
 
+(* magnitudes: the unit of the pair counts is arbitrary (object weights of 2^-30, CorrFunc * c, scale
+   weights).  The recount without patch k is homogeneous: counts times c give samples times c, for
+   the specification and for total - row - column + diagonal, any matrix, any k ... *)
+Theorem C03_loo_homogeneous : forall c (M : mat) k,
+  loo (mscale c M) k == c * loo M k /\ sample (mscale c M) k == c * sample M k.
+Proof. intros c M k. split; [apply loo_scale | apply sample_scale]. Qed.
+Print Assumptions C03_loo_homogeneous.
+
+(* ... weights times a (first catalog) and b (second catalog) give normalisations times a*b (k^2 for
+   one factor on both catalogs, k for a factor on one), as documented and as computed ... *)
+Theorem C03_normalisation_homogeneous : forall auto a b u v,
+  norm_denominator auto (vscale a u) (vscale b v) == a * b * norm_denominator auto u v.
+Proof. exact norm_denominator_scale. Qed.
+Print Assumptions C03_normalisation_homogeneous.
+
+Theorem C03_weights_sample_homogeneous : forall auto a b u v k,
+  (k < length u)%nat -> (k < length v)%nat ->
+  sample (weights_array auto (vscale a u) (vscale b v)) k == a * b * sample (weights_array auto u v) k.
+Proof. exact weights_sample_scale. Qed.
+Print Assumptions C03_weights_sample_homogeneous.
+
+(* ... the normalised statistic and its jackknife samples depend on c / (a*b) only ... *)
+Theorem C03_statistic_scaling : forall auto c a b (M : mat) u v,
+  ~ a * b == 0 ->
+  nc_stat auto (mscale c M) (vscale a u) (vscale b v) == (c / (a * b)) * nc_stat auto M u v.
+Proof. exact nc_stat_scale. Qed.
+Print Assumptions C03_statistic_scaling.
+
+Theorem C03_nc_sample_scaling : forall auto c a b (M : mat) u v k,
+  (k < length u)%nat -> (k < length v)%nat -> ~ a * b == 0 ->
+  nc_sample auto (mscale c M) (vscale a u) (vscale b v) k == (c / (a * b)) * nc_sample auto M u v k.
+Proof. exact nc_sample_scale. Qed.
+Print Assumptions C03_nc_sample_scaling.
+
+(* ... in particular they do not change when the object weights of the two catalogs are multiplied
+   by constants (pair counts are sums of products of weights) ... *)
+Theorem C03_nc_sample_weight_invariant : forall auto a b (M : mat) u v k,
+  (k < length u)%nat -> (k < length v)%nat -> ~ a * b == 0 ->
+  nc_sample auto (mscale (a * b) M) (vscale a u) (vscale b v) k == nc_sample auto M u v k.
+Proof. exact nc_sample_weight_invariant. Qed.
+Print Assumptions C03_nc_sample_weight_invariant.
+
+(* ... histogram samples scale with the weights, covariances with the square of the samples ... *)
+Theorem C03_hist_loo_homogeneous : forall c B obs k b,
+  nth b (vsum B (remove_nth k (mscale c obs))) 0 == c * nth b (vsum B (remove_nth k obs)) 0.
+Proof. exact hist_loo_scale. Qed.
+Print Assumptions C03_hist_loo_homogeneous.
+
+Theorem C03_cov_homogeneous : forall c X i j, cov_code (mscale c X) i j == c * c * cov_code X i j.
+Proof. exact cov_code_scale. Qed.
+Print Assumptions C03_cov_homogeneous.
+
+(* ... so there is no size below which a leave-one-out sum is "empty": a variant that replaces sums
+   within eps of zero by zero agrees with the recount while the sums are larger than eps (counts and
+   weights of order one do not see it) ... *)
+Theorem C03_threshold_invisible_above : forall eps (M : mat) k,
+  eps < Qabs (sample M k) -> sample_thr eps M k == sample M k.
+Proof. exact sample_thr_above. Qed.
+Print Assumptions C03_threshold_invisible_above.
+
+(* ... but for EVERY positive eps it is not the sum without patch k ... *)
+Theorem C03_threshold_refuted : forall eps, 0 < eps ->
+  exists (M : mat) k, square 2 M /\ (k < 2)%nat /\ ~ sample_thr eps M k == loo M k.
+Proof. exact sample_thr_not_loo. Qed.
+Print Assumptions C03_threshold_refuted.
+
+(* ... it is not homogeneous, and the normalised samples change with the unit of the weights *)
+Theorem C03_threshold_not_homogeneous :
+  exists eps (M : mat) k c, 0 < eps /\ 0 < c /\ ~ sample_thr eps (mscale c M) k == c * sample_thr eps M k.
+Proof. exact sample_thr_not_homogeneous. Qed.
+Print Assumptions C03_threshold_not_homogeneous.
+
+Theorem C03_threshold_weight_unit_refuted :
+  exists eps auto (M : mat) u v k a, 0 < eps /\ 0 < a /\
+    ~ nc_sample_thr eps auto (mscale (a * a) M) (vscale a u) (vscale a v) k == nc_sample_thr eps auto M u v k.
+Proof. exact nc_sample_thr_weight_refuted. Qed.
+Print Assumptions C03_threshold_weight_unit_refuted.
+
 (* non-vacuity: concrete 3-patch instances *)
 Example C03_concrete_counts :
   let M := [[1; 2; 3]; [4; 5; 6]; [7; 8; 10]] in
@@ -206,4 +284,22 @@ Example C03_concrete_cov_undefined :
   /\ c03_covopt_case [[Some 0; None; Some 1]; [Some 2; Some 1; Some 5]]
                      [[Some 1; None; Some 2]; [None; None; None]; [Some 2; None; Some 4]] [Some 1; None; Some 2]
                      [[1; 1; 1]; [1; -1; -2]] = 0%nat.
+Proof. vm_compute. repeat split; reflexivity. Qed.
+
+
+Example C03_concrete_magnitudes :
+  let M := [[3; 1; 0]; [2; 5; 1]; [0; 4; 2]] in
+  let u := [2; 3; 1] in let v := [1; 1; 4] in
+  let a := 1 # 1048576 in                                   (* object weights of 2^-20: counts of 2^-40 *)
+  let eps := 1 # 100000000 in
+  map (fun k => Qred (nc_sample false M u v k)) [0; 1; 2]%nat = [3 # 5; 1 # 3; 11 # 10]
+  /\ map (fun k => Qred (nc_sample false (mscale (a * a) M) (vscale a u) (vscale a v) k)) [0; 1; 2]%nat = [3 # 5; 1 # 3; 11 # 10]
+  /\ map (fun k => Qred (nc_sample_thr eps false (mscale (a * a) M) (vscale a u) (vscale a v) k)) [0; 1; 2]%nat = [0; 0; 0]
+  (* the checker accepts the samples of the recount at this magnitude and rejects the thresholded ones (bits 0 and 1) *)
+  /\ c03_nc_case 3 false [mscale (a * a) M] [vscale a u] [vscale a v] [Some (18 # 36)]
+                 [[Some (3 # 5)]; [Some (1 # 3)]; [Some (11 # 10)]] = 0%nat
+  /\ c03_nc_case 3 false [mscale (a * a) M] [vscale a u] [vscale a v] [Some (18 # 36)]
+                 [[Some 0]; [Some 0]; [Some 0]] = 3%nat
+  /\ c03_rerun_case tol48 [Some (1 # 3); None; Some 2] [Some (1 # 3); Some 1; Some 2] = 0%nat
+  /\ c03_rerun_case tol48 [Some 0; None; Some 2] [Some (1 # 3); Some 1; Some 2] = 1%nat.
 Proof. vm_compute. repeat split; reflexivity. Qed.
